@@ -157,6 +157,12 @@ def r09_inventory(ctx, rep, roles, P="C09", ent=None, rule_id="R09.1", extra_tab
         if owner == "[u8; N]" and "Serializable>::serialize" in s.fn and "Deserializable" not in s.fn:
             key = ("[u8; N]/ser", kind)
         row = table.get(key)
+        if row is None and kind == "call:index" and (key[0], "assert:BoundsCheck") in table:
+            # `v[i]` on a Vec (Index::index call) instead of a boxed slice / array (BoundsCheck assertion): the same abort
+            alt = (key[0], "assert:BoundsCheck")
+            if seen.get(alt, 0) < ((extra_counts or {}).get(alt, CONFIRMED.get(alt)) or 0):
+                key = alt
+                row = table[alt]
         if row is None and kind in ("call:unwrap", "call:expect"):
             # unwrap / expect are the same abort; a site listed under one form may be rewritten into the other
             alt = (key[0], "call:expect" if kind == "call:unwrap" else "call:unwrap")
